@@ -276,7 +276,9 @@ class SegmentationImage:
         """
         if self.nlabels == 0:
             return 0
-        return np.max(self.labels)
+        # return a Python int so that ``max_label + 1`` cannot overflow
+        # for small integer dtypes (e.g., label 255 in a uint8 array)
+        return int(np.max(self.labels))
 
     def get_index(self, label):
         """
